@@ -186,6 +186,19 @@ func (c *Ctx) checkScopePassCoverage(rule, mapField, sliceField, elemType string
 			c.bad(rule, key, pos, "the loop over "+pass.field+" can be left or cut short (break/return): some metrics are skipped by the pass")
 			continue
 		}
+		// the loop is entered by every pass: no return avoids it (a pass that walks the metrics only when
+		// some hint / dirty flag says so misses an update that is published after the hint was consumed)
+		skipped := false
+		for _, r := range returnsOf(fn) {
+			if !lp.loop.Header.Dominates(r.Block()) {
+				skipped = true
+				c.bad(rule, key, r.Pos(), "the pass can finish without entering the loop over "+pass.field+" (it is conditional on something other than the metrics themselves): an update published after that condition was sampled is not delivered by the first pass that starts afterwards - possibly never", c.describe(r))
+				break
+			}
+		}
+		if skipped {
+			continue
+		}
 		if len(deliveries) == 0 {
 			c.bad(rule, key, lp.pos, "the loop over "+pass.field+" does not call the element's delivery function: metrics of this kind are never reported by this pass")
 			continue
